@@ -13,7 +13,17 @@ git -C /repo worktree add -q --detach $wt HEAD || exit 2
 trap 'git -C /repo worktree remove --force $wt >/dev/null 2>&1; rm -rf $wt' EXIT
 demo_clean=NA; demo_mut=NA
 if [ -f $src/demo.sh ]; then bash $src/demo.sh $wt >/dev/null 2>&1; demo_clean=$?; (cd $wt && git checkout -q -- . 2>/dev/null); fi
-git -C $wt apply $src/patch.diff 2>/dev/null || git -C $wt apply -3 $src/patch.diff 2>/dev/null || { echo "PATCH-DOES-NOT-APPLY (even with 3-way merge)"; exit 2; }
+base=HEAD
+if ! git -C $wt apply $src/patch.diff 2>/dev/null && ! git -C $wt apply -3 $src/patch.diff 2>/dev/null; then
+  # a later fix: commit rewrote the same lines: the change is kept against the tree it was written for
+  (cd $wt && git checkout -q -- . 2>/dev/null)
+  for b in ${BASES:-61a521a 54b0103}; do
+    git -C $wt checkout -q --detach $b 2>/dev/null || continue
+    if git -C $wt apply $src/patch.diff 2>/dev/null; then base=$b; break; fi
+  done
+  [ "$base" = HEAD ] && { echo "PATCH-DOES-NOT-APPLY (even with 3-way merge, nor to ${BASES:-61a521a 54b0103})"; exit 2; }
+  echo "$pid-$m: applied to older base $base"
+fi
 (cd $wt && git reset -q 2>/dev/null)
 (cd $wt && go build ./... ) || { echo "DOES-NOT-BUILD"; exit 2; }
 ut=$(cd $wt && go test -vet=off -count=1 ./... 2>&1 | grep -c "^FAIL\|^--- FAIL")
@@ -31,15 +41,15 @@ for p in $pid "$@"; do
   echo "$pid-$m: check $p rc=$rc demo_clean=$demo_clean demo_mutant=$demo_mut unit_failures=$ut :: $first"
   res="$res{\"check\":\"$p\",\"tier\":\"${TIER:-quick}\",\"exit\":$rc,\"first_message\":\"$first\"},"
 done
-python3 - "$dst" "$pid" "$m" "$demo_clean" "$demo_mut" "$ut" "[${res%,}]" <<'PY'
+python3 - "$dst" "$pid" "$m" "$demo_clean" "$demo_mut" "$ut" "[${res%,}]" "$base" <<'PY'
 import json, sys, os, re
-dst, pid, m, dc, dm, ut, res = sys.argv[1:8]
+dst, pid, m, dc, dm, ut, res, base = sys.argv[1:9]
 try: results = json.loads(res)
 except Exception as e: results = [{"raw": res}]
 notes = open(os.path.join(dst, "notes.md")).read() if os.path.exists(os.path.join(dst, "notes.md")) else ""
 meta = {"property": pid, "mutant": m, "source": "independent sub-agent given only the property text and a scratch worktree",
         "needs_to_manifest": notes[:1500], "confirmed": {"demo_exit_on_clean_tree": dc, "demo_exit_with_patch": dm, "unit_test_failures_with_patch": int(ut),
         "how": "lib/intake.sh: scratch worktree of /repo HEAD, demo.sh on clean tree, git apply patch.diff, go build, go test ./..., demo.sh again"},
-        "checks_run": results}
+        "checks_run": results, "applied_to": base}
 json.dump(meta, open(os.path.join(dst, "meta.json"), "w"), indent=1)
 PY
